@@ -404,8 +404,8 @@ class Executor:
             merged_into, stubs = (node, old) if old.pyi else (old, node)
             if _merge_meets_alias(merged_into, stubs):
                 if ctx:
-                    ctx.log("skip", "stub merge would pass through an alias")
-                    ctx.probe("stub-merge-through-alias-skipped")
+                    ctx.log("skip", "stub merge would pass through or move an alias")
+                    ctx.probe("stub-merge-involving-alias-skipped")
                 return
 
         def _merge_children(regular, stubs_node):
@@ -428,6 +428,10 @@ class Executor:
                 if stubs in m.detached:
                     m.detached.remove(stubs)
                 if merged_into is node:
+                    if "reinsert" in tags:
+                        for _, n in m.walk(node, ()):
+                            if n.kind == "alias":
+                                self.moved_inside.add(n.uid)
                     if node in m.detached:
                         m.detached.remove(node)
                     container.children[node.name] = node
@@ -447,6 +451,10 @@ class Executor:
         if self.model_only:
             if expect == "ok":
                 apply_model()
+            return
+        if container is None and op["api"] == "setitem" and self._passes_inherited(on):
+            ctx.log("skip", "consumer-API insertion through a merely inherited name (not judged)")
+            ctx.probe("consumer-api-path-through-inherited-member-skipped")
             return
         # aliases (attached, outside the displaced subtree) that point at the member about to be replaced
         watchers = []
@@ -519,15 +527,10 @@ class Executor:
             m.detached.append(node)
         if self.model_only:
             return
-        if node is None and parent is not None and parent.kind == "class" and op["api"] == "delitem":
-            rp = self.objs.get(parent.uid)
-            try:
-                inherited = path[-1] in rp.inherited_members
-            except Exception:  # noqa: BLE001
-                inherited = True
-            if inherited:
-                ctx.log("skip", "consumer-API deletion of a merely inherited name (not judged)")
-                return
+        if node is None and op["api"] == "delitem" and self._passes_inherited(path):
+            ctx.log("skip", "consumer-API deletion through a merely inherited name (not judged)")
+            ctx.probe("consumer-api-path-through-inherited-member-skipped")
+            return
         before = self.snapshot() if expect != "ok" else None
         base_path, key = self.key_and_base(op["form"], path)
         base = self.objs[0] if not base_path else self._lookup_real(base_path)
@@ -648,6 +651,24 @@ class Executor:
             self._judge(ctx, op, expect, exc, before, ["retarget-" + str(op["to"])])
 
     # -- helpers -------------------------------------------------------------------------------
+
+    def _passes_inherited(self, path):
+        """True when walking `path` in the real tree leaves the declared members at a class whose bases provide the
+        name: the consumer API (`obj[...]`, `del obj[...]`) follows inherited members, the reference model does not."""
+        obj = self.coll
+        for part in path:
+            if getattr(obj, "is_alias", False):
+                return False
+            nxt = obj.members.get(part)
+            if nxt is None:
+                if obj is not self.coll and obj.kind.value == "class":
+                    try:
+                        return part in obj.inherited_members
+                    except Exception:  # noqa: BLE001
+                        return True
+                return False
+            obj = nxt
+        return False
 
     def _lookup_real(self, path):
         obj = self.coll
@@ -894,6 +915,11 @@ def _merge_meets_alias(regular, stubs):
     for cname, child in stubs.children.items():
         mine = regular.children.get(cname)
         if mine is None:
+            # Moving an alias re-registers it with its target, which dereferences the rest of its chain: when that
+            # fails inside the (not yet attached) regular module the merge stops half-way and the error is swallowed
+            # by set_member - what is merged then depends on resolution, not on the tree operations judged here.
+            if child.kind == "alias":
+                return True
             continue
         if mine.kind == "alias" and child.kind != "alias":
             return True
